@@ -49,17 +49,28 @@ def fmt(v, nd=4, keep_zeros=False):
     return s
 
 
+def _safe_dict(obj):
+    """toDict() of a plugin object; a broken object (e.g. a copy that lacks an attribute) is described, not
+    allowed to crash the harness."""
+    if obj is None:
+        return None
+    try:
+        return obj.toDict()
+    except Exception as ex:
+        return {"broken": "%s: %s" % (type(ex).__name__, ex), "attrs": sorted(vars(obj))}
+
+
 def state_snapshot(state):
     """Structural snapshot of the plugin's tracking state (for 'changes nothing' clauses)."""
     lr = state.lastRetraction
     return json.dumps({
-        "pos": state.position.toDict(),
+        "pos": _safe_dict(state.position),
         "feed": state.feedRate, "fmul": state.feedRateUnitMultiplier,
         "enabled": state._exclusionEnabled, "excluding": state.excluding,
-        "lastRetraction": None if lr is None else lr.toDict(),
-        "lastPosition": None if state.lastPosition is None else state.lastPosition.toDict(),
+        "lastRetraction": _safe_dict(lr),
+        "lastPosition": _safe_dict(state.lastPosition),
         "pending": [[k, (dict(v) if isinstance(v, dict) else v)] for k, v in state.pendingCommands.items()],
-        "regions": [r.toDict() for r in state.excludedRegions],
+        "regions": [_safe_dict(r) for r in state.excludedRegions],
         "numCommands": state.numCommands, "numExcluded": state.numExcludedCommands,
     }, sort_keys=True, default=str)
 
@@ -157,11 +168,19 @@ class Renderer(object):
             a1 = a0 - sweep if cw else a0 + sweep
             r = math.hypot(ci, cj)
             ex_, ey_ = cx + r * math.cos(a1), cy + r * math.sin(a1)
-            parts = ["G2" if cw else "G3", self._axis_word(0, "X", ex_), self._axis_word(1, "Y", ey_)]
+            parts = ["G2" if cw else "G3"]
+            # an axis word may be left out when the end point does not move along that axis (half a turn about a
+            # centre straight above / beside the start); likewise an offset word that is exactly 0
+            if not (op.get("omit") == "x" and abs(ex_ - sx) < 1e-9):
+                parts.append(self._axis_word(0, "X", ex_))
+            if not (op.get("omit") == "y" and abs(ey_ - sy) < 1e-9):
+                parts.append(self._axis_word(1, "Y", ey_))
             if op.get("z") is not None:
                 parts.append(self._axis_word(2, "Z", op["z"]))
-            parts.append("I" + fmt(ci / U.unit, self._nd()))
-            parts.append("J" + fmt(cj / U.unit, self._nd()))
+            if not (op.get("omit") and ci == 0.0):
+                parts.append("I" + fmt(ci / U.unit, self._nd()))
+            if not (op.get("omit") and cj == 0.0):
+                parts.append("J" + fmt(cj / U.unit, self._nd()))
             if op.get("de") is not None and not self.file_retracted:
                 parts.append(self._e_word(op["de"]))
             if op.get("f") is not None:
@@ -260,6 +279,9 @@ class PrintWorld(Renderer):
         self.sim_time = 0.0
         self._pre = None
         self._foreign_seen = set()
+        self.file_feeds = {0.0}       # feed rates (mm/min) the input stream has selected so far
+        self.file_retract_amounts = set()   # lengths (mm) of (sums of consecutive) retractions of the file
+        self._cycle = []
         self.op_records = {}          # per sender op: decision / episode / printer position (C08)
         self.enc_applied = False
 
@@ -369,6 +391,20 @@ class PrintWorld(Renderer):
         if src != "plugin":
             U_before, _ = U.run(cmd)
             self.sim_time = U.clock
+        if src != "plugin" and code is not None:
+            self.file_feeds.add(U.feed)
+            if U_before is not None and code in ("G0", "G1"):
+                dpu_ = U.p - U_before[5]
+                if dpu_ < 0:
+                    # every sum of consecutive retractions of the current cycle is a length the filter may
+                    # legitimately have recorded (it combines consecutive retractions)
+                    self._cycle.append(-dpu_)
+                    acc = 0.0
+                    for ln in reversed(self._cycle):
+                        acc += ln
+                        self.file_retract_amounts.add(round(acc, 9))
+                elif U.depth() <= 1e-9:
+                    self._cycle = []
         if active and code == "G28" and src != "plugin":
             axes = set(l for l in "XYZ" if l in w) or set("XYZ")
             self.guard_axes |= axes
@@ -451,6 +487,12 @@ class PrintWorld(Renderer):
             # C07: synthesised commands must be plain decimal, well formed
             if synthesized and src != "plugin":
                 self._check_c07(wc)
+                if fcode == "G1" and not moved_xy and not moved_z and abs(dp) > self._etol() and tracking \
+                        and wc not in self.enter_lines and wc not in self.exit_lines:
+                    amt = abs(dp)
+                    if not any(abs(amt - a) <= 2 * self._etol() + 1e-9 * a for a in self.file_retract_amounts):
+                        self.fail("C07", "amount", "synthesised %r moves %.6f mm of filament; the file's retractions "
+                                  "so far have the lengths / depths %s" % (wc, dp, sorted(self.file_retract_amounts)[:8]))
             if not (tracking and F.homed()):
                 continue
             from_afterprint = (src == "plugin" and wc in self.afterprint_prefix)
@@ -659,12 +701,20 @@ class PrintWorld(Renderer):
     def _check_c07(self, wc):
         if wc in self.enter_lines or wc in self.exit_lines:
             return
-        code, _s, _w = marlin_words(wc)
+        code, _s, w_ = marlin_words(wc)
         if code in ("G0", "G1", "G10", "G11", "G92") or self.defer.modes.get(code) == "merge":
             self.stats["synth_checked"] += 1
             probs = strict_problems(wc)
             if probs:
                 self.fail("C07", "format", "synthesised command %r: %s" % (wc, "; ".join(probs)))
+            # intended value of an F word: a feed rate the file has selected at some point (the modal feed rate
+            # for re-positioning, the retraction's own feed rate for retract / recover), in the printer's units
+            if code in ("G0", "G1") and w_.get("F") is not None and self.tracking():
+                f_mm = w_["F"] * self.F.unit
+                if not any(abs(f_mm - v) <= 1e-9 * max(1.0, abs(v)) for v in self.file_feeds):
+                    self.fail("C07", "feed", "synthesised command %r: F reads as %.6f mm/min on the printer, the "
+                              "file never selected that feed rate (it selected %s)"
+                              % (wc, f_mm, sorted(self.file_feeds)[:8]))
 
     def _check_sync(self, prop, clause, cmd):
         U, F = self.U, self.F
